@@ -285,7 +285,7 @@ fn c10_a_dyn_scan_ts1() {
 }
 
 /// (a) L2: DynamicTickArrayLoader::get_next_init_tick_index == reference scan; symbolic 128-bit bitmap, valid start (incl. MIN array), search tick (all i32), direction, offset in [-1,87]; spacing 8
-// @verif prop=C10 tier=quick timeout=600 contract
+// @verif prop=C10,C13 tier=quick timeout=600 contract
 #[kani::proof]
 #[kani::unwind(90)]
 #[kani::stub(alloc::fmt::format, stub_format)]
@@ -419,7 +419,7 @@ fn c10_a_fixed_scan_cases_ts128() {
 }
 
 /// (a) L2, fixed array, quick subset: offsets 0..2 leftwards and 84..86 rightwards (first / last slots); spacing 8
-// @verif prop=C10 tier=quick timeout=600 contract
+// @verif prop=C10,C13 tier=quick timeout=600 contract
 #[kani::proof]
 #[kani::unwind(90)]
 #[kani::stub(alloc::fmt::format, stub_format)]
